@@ -135,6 +135,8 @@ def _faults(rng, op, full):
     for step in range(nsteps):
         valid = bytes.fromhex(c["replies"][step])
         out.append(_with(c, step, "-", "empty"))
+        for ws in ("20", "0a", "090d0a20", "2020202020202020", "00", "0000"):      # not empty: blanks only, NULs only
+            out.append(_with(c, step, ws, "blank"))
         plens = range(1, len(valid) + 1) if full else sorted(set([1, 2, 8, 11, 12, 13, 40, 74, 75, 76, 77, 78, 80, 81, 82, 84, 88, 89, 92, 93, 96, 97, 100, 101]
                                                                + [rng.randrange(1, len(valid) + 1) for _ in range(6)]))
         for n in plens:
